@@ -25,7 +25,7 @@ from typing import Any
 import attrs
 from path import Path
 
-from .enums import FileState, HashUpdateCause, StepState
+from .enums import FILE_STATES_BY_ROLE, FileRole, FileState, HashUpdateCause, StepState
 from .exceptions import HashCancelledError
 from .file import File
 from .hash import (
@@ -658,13 +658,31 @@ class Executor:
             # would call `handle_updated_file`
             # and needlessly mark all sinks pending. (They should already be pending.)
             async with self.db:
-                self.workflow.update_file_hashes({hash_job.path: new_hash}, cause=hash_job.cause)
+                if not self._is_stale_confirmation(hash_job):
+                    self.workflow.update_file_hashes(
+                        {hash_job.path: new_hash}, cause=hash_job.cause
+                    )
         if not hash_job.future.done():
             # Resolved after the DB write, so an awaiter that re-reads file state on wake always
             # sees the post-transition state.
             # Already done when the future was cancelled concurrently (e.g. Builder.stop());
             # set_result would then raise InvalidStateError.
             hash_job.future.set_result(new_hash)
+
+    def _is_stale_confirmation(self, hash_job: HashJob) -> bool:
+        """Whether the file of a confirmation job has left the static role in the meantime.
+
+        A confirmation is requested for an UNCONFIRMED file and applied when its hash is known.
+        In between, the node can be given another role:
+        e.g. the step that declared the file static runs while it is detached
+        (its creator is running again), so its declaration is no claim,
+        and another step then declares the same path as its output.
+        There is nothing left to confirm in that case.
+        """
+        if hash_job.cause != HashUpdateCause.CONFIRMED:
+            return False
+        file = self.workflow.find(File, hash_job.path)
+        return file is None or file.get_state() not in FILE_STATES_BY_ROLE[FileRole.STATIC]
 
     async def _format_provenance(self, path: str) -> list[tuple[str, str]]:
         """Format where `path` came from in the workflow, as a reporter page.
